@@ -23,6 +23,9 @@ FUNCS = {
                   [("if", ("bin", "==", ("var", "q"), ("int", 2)), [("raise", "ea")], None)]), ("return", ("int", 1))]),
     "fh": ([], [("begin", [("raise", "ea")], [("ea", [("return", ("int", 5))])]), ("return", ("int", 6))]),
     "f1": (["x"], [("return", ("var", "x"))]),
+    # fails from its second use on: lets an expression fail after the loop body already ran (and ended with continue)
+    "fc": (["x"], [("if", ("bin", ">", ("var", "x"), ("int", 0)), [("raise", "ea")], None), ("return", ("int", 1))]),
+    "fcz": (["x"], [("return", ("bin", "/", ("int", 1), ("bin", "-", ("int", 1), ("var", "x"))))]),
 }
 FDECL = "\n".join(ctl.ftext(n, p, b) for n, (p, b) in FUNCS.items())
 DECL7 = DECL + " tv = tab(1, 1);"
@@ -31,6 +34,8 @@ DECL7 = DECL + " tv = tab(1, 1);"
 FAIL_STMTS = {
     "raise-ea": ("raise", "ea"),
     "raise-eb": ("raise", "eb"),
+    "raise-eab": ("raise", "eab"),      # a name that only starts like the clause name ea
+    "raise-e": ("raise", "e"),          # a name the clause names start with
     "div0": ("eval", ("div0",)),
     "oor": ("raise", "out_of_range"),
     "fatal": ("eval", ("fatal",)),
@@ -84,7 +89,15 @@ def fail_wrappers(level, fe):
     """Innermost constructs whose own expression fails."""
     iv, nv = "i%d" % level, "n%d" % level
     body = [("print", "x%d" % level)]
-    return {
+    extra = {}
+    if fe == ("call", "fr", []):
+        # the condition fails at its second evaluation, after a turn of the body that ended with continue / ran to its end
+        for fname in ("fc", "fcz"):
+            extra["while-recheck-continue:" + fname] = [("let", nv, ("int", 0)), ("while", ("bin", "==", ("call", fname, [("var", nv)]), ("int", 1)),
+                                                         [("let", nv, ("bin", "+", ("var", nv), ("int", 1))), ("print", "x%d" % level), ("continue",), ("print", "nr")])]
+            extra["while-recheck:" + fname] = [("let", nv, ("int", 0)), ("while", ("bin", "==", ("call", fname, [("var", nv)]), ("int", 1)),
+                                                [("let", nv, ("bin", "+", ("var", nv), ("int", 1))), ("print", "x%d" % level)])]
+    extra.update({
         "for-begin": [("for", iv, fe, ("int", 2), None, "auto", body)],
         "for-end": [("for", iv, ("int", 1), fe, None, "auto", body)],
         "for-step": [("for", iv, ("int", 1), ("int", 2), fe, "auto", body)],
@@ -92,7 +105,8 @@ def fail_wrappers(level, fe):
         "if-cond": [("if", ("bin", "==", fe, ("int", 1)), body, None)],
         "return": [("return", fe)],
         "let": [("let", "zz", ("bin", "+", ("int", 1), fe))],
-    }
+    })
+    return extra
 
 
 def programs(tier):
@@ -111,7 +125,8 @@ def programs(tier):
                 for wn, ws in fail_wrappers(depth + 1, fe).items():
                     payloads.append((wn + ":" + en, ws))
             if tier != "thorough" and depth == 3:
-                payloads = [p for p in payloads if p[0] in ("raise-ea", "div0", "fatal", "call-frl", "for-end:fr", "while-cond:div0", "arg-fr", "if-cond:fatal")]
+                payloads = [p for p in payloads if p[0] in ("raise-ea", "raise-eab", "div0", "fatal", "call-frl", "for-end:fr", "while-cond:div0", "arg-fr", "if-cond:fatal",
+                                                            "while-recheck-continue:fc:fr")]
             for pn, inner in payloads:
                 block = inner
                 ok = True
